@@ -42,6 +42,13 @@ Files == 1..NF
 Blks  == 1..NB
 W     == 1..N
 
+\* Per-query / per-file sizes. The design configurations use the uniform defaults; the trace specification
+\* (QueryPipelineTrace.tla) overrides them with what a recorded run showed.
+NFq(q)       == NF                \* candidates the iterator yields to query q
+NBf(q, f)    == NB                \* candidate blocks of file f (after the prefilter)
+BlksOf(q, f) == 1..NBf(q, f)
+MaxPend      == 1                 \* rows of a batch still to hand out after the first (abstracted to 0..1 in the design configs)
+
 VARIABLES
   cctx, ictx,          \* caller context canceled / internal context canceled
   fs, iterOpen,        \* file stage [pc, pos]; MetaStore iterator entered and not returned
@@ -152,15 +159,15 @@ FSEnter(q) ==
 \* one pull from the iterator: exhausted, error, observed cancellation, pruned, or a job to send
 FSPull(q) ==
   /\ fs[q].pc = "pull"
-  /\ \/ /\ fs[q].pos = NF /\ FSExitVars(q) /\ UNCHANGED << errs, promised, faults >>
-     \/ /\ fs[q].pos < NF /\ faults < MaxFaults          \* the iterator yields an error: recorded unconditionally
+  /\ \/ /\ fs[q].pos = NFq(q) /\ FSExitVars(q) /\ UNCHANGED << errs, promised, faults >>
+     \/ /\ fs[q].pos < NFq(q) /\ faults < MaxFaults          \* the iterator yields an error: recorded unconditionally
         /\ faults' = faults + 1 /\ errs' = [errs EXCEPT ![q] = @ + 1]
         /\ promised' = IF ictx[q] THEN promised ELSE [promised EXCEPT ![q] = @ + 1]
         /\ FSExitVars(q)
-     \/ /\ fs[q].pos < NF /\ ictx[q] /\ FSExitVars(q) /\ UNCHANGED << errs, promised, faults >>
-     \/ /\ fs[q].pos < NF /\ ~ictx[q]                    \* pruned by prefilter / file-level filters
+     \/ /\ fs[q].pos < NFq(q) /\ ictx[q] /\ FSExitVars(q) /\ UNCHANGED << errs, promised, faults >>
+     \/ /\ fs[q].pos < NFq(q) /\ ~ictx[q]                \* pruned by prefilter / file-level filters
         /\ fs' = [fs EXCEPT ![q].pos = @ + 1] /\ UNCHANGED << iterOpen, fjClosed, errs, promised, faults >>
-     \/ /\ fs[q].pos < NF /\ ~ictx[q]
+     \/ /\ fs[q].pos < NFq(q) /\ ~ictx[q]
         /\ fs' = [fs EXCEPT ![q].pc = "send"] /\ UNCHANGED << iterOpen, fjClosed, errs, promised, faults >>
   /\ UNCHANGED << cctx, ictx, fjobs, fw, bjobs, bjClosed, bw, td, sem, refs, idle, poolClosed, opened, closedH,
                   rowch, chClosed, done, finalized, err, cons, closer, once, stats, decC, decErrs >>
@@ -189,26 +196,32 @@ FWRecv(q, w) ==
              /\ refs' = IF poolClosed[q] THEN refs ELSE [refs EXCEPT ![q][f] = @ + 1]
              /\ fw' = [fw EXCEPT ![q][w] = IF HasBloom
                           THEN [FW0 EXCEPT !.pc = "acq", !.f = f, !.i = 1]
-                          ELSE [FW0 EXCEPT !.pc = "rel", !.f = f, !.surv = Blks]]
+                          ELSE [FW0 EXCEPT !.pc = "rel", !.f = f, !.surv = BlksOf(q, f)]]
      \/ /\ Len(fjobs[q]) = 0 /\ fjClosed[q] /\ fw' = [fw EXCEPT ![q][w].pc = "exit"] /\ UNCHANGED << fjobs, refs >>
      \/ /\ ictx[q] /\ fw' = [fw EXCEPT ![q][w].pc = "exit"] /\ UNCHANGED << fjobs, refs >>
   /\ UNCHANGED << cctx, ictx, fs, iterOpen, fjClosed, bjobs, bjClosed, bw, td, sem, idle, poolClosed, opened, closedH,
                   rowch, chClosed, done, errs, finalized, err, cons, closer, once, stats, faults, decC, decErrs, promised >>
 
-\* slot.acquire, then the post-acquire cancellation check
+\* slot.acquire
 FWAcq(q, w) ==
   /\ fw[q][w].pc = "acq"
   /\ \/ /\ sem < N /\ sem' = sem + 1
-        /\ fw' = [fw EXCEPT ![q][w] = [@ EXCEPT !.held = TRUE, !.pc = IF ictx[q] THEN "rel" ELSE "open"]]
+        /\ fw' = [fw EXCEPT ![q][w] = [@ EXCEPT !.held = TRUE, !.pc = "open"]]
      \/ /\ ictx[q] /\ fw' = [fw EXCEPT ![q][w].pc = "rel"] /\ UNCHANGED sem
   /\ UNCHANGED << cctx, ictx, fs, iterOpen, fjobs, fjClosed, bjobs, bjClosed, bw, td, refs, idle, poolClosed, opened, closedH,
                   rowch, chClosed, done, errs, finalized, err, cons, closer, once, stats, faults, decC, decErrs, promised >>
 
-\* handles.acquire: borrow an idle handle or open one; an open failure makes the file unreadable
+\* the post-acquire cancellation check, the read plan, then handles.acquire: borrow an idle handle or open one; an
+\* open failure (or metadata that describes no readable region) makes the file unreadable; a file whose blocks
+\* have no filter sections is never opened and all its blocks survive
 FWOpen(q, w) ==
   LET f == fw[q][w].f IN
   /\ fw[q][w].pc = "open"
-  /\ \/ /\ idle[q][f] > 0 /\ idle' = [idle EXCEPT ![q][f] = @ - 1]
+  /\ \/ /\ ictx[q] /\ fw' = [fw EXCEPT ![q][w].pc = "rel"]
+        /\ UNCHANGED << idle, opened, errs, promised, stats, faults >>
+     \/ /\ ~ictx[q] /\ fw' = [fw EXCEPT ![q][w] = [@ EXCEPT !.surv = BlksOf(q, f), !.pc = "rel"]]
+        /\ UNCHANGED << idle, opened, errs, promised, stats, faults >>
+     \/ /\ idle[q][f] > 0 /\ idle' = [idle EXCEPT ![q][f] = @ - 1]
         /\ fw' = [fw EXCEPT ![q][w] = [@ EXCEPT !.hh = TRUE, !.pc = "rd"]]
         /\ UNCHANGED << opened, errs, promised, stats, faults >>
      \/ /\ idle[q][f] = 0 /\ opened' = [opened EXCEPT ![q][f] = @ + 1]
@@ -216,7 +229,7 @@ FWOpen(q, w) ==
         /\ UNCHANGED << idle, errs, promised, stats, faults >>
      \/ /\ idle[q][f] = 0 /\ faults < MaxFaults /\ faults' = faults + 1
         /\ errs' = FailErrs(q) /\ promised' = FailPromised(q)
-        /\ stats' = StatAdd(q, f, Blks)
+        /\ stats' = StatAdd(q, f, BlksOf(q, f))
         /\ fw' = [fw EXCEPT ![q][w].pc = "rel"]
         /\ UNCHANGED << idle, opened >>
   /\ UNCHANGED << cctx, ictx, fs, iterOpen, fjobs, fjClosed, bjobs, bjClosed, bw, td, sem, refs, poolClosed, closedH,
@@ -229,7 +242,7 @@ FWReadEnd(q, w) ==
   /\ \/ /\ fw' = [fw EXCEPT ![q][w].pc = "eval"] /\ UNCHANGED << errs, promised, stats, faults, closedH >>
      \/ /\ faults < MaxFaults /\ faults' = faults + 1
         /\ errs' = FailErrs(q) /\ promised' = FailPromised(q)
-        /\ stats' = StatAdd(q, f, Blks)
+        /\ stats' = StatAdd(q, f, BlksOf(q, f))
         /\ closedH' = [closedH EXCEPT ![q][f] = @ + 1]
         /\ fw' = [fw EXCEPT ![q][w] = [@ EXCEPT !.hh = FALSE, !.pc = "rel"]]
   /\ UNCHANGED << cctx, ictx, fs, iterOpen, fjobs, fjClosed, bjobs, bjClosed, bw, td, sem, refs, idle, poolClosed, opened,
@@ -239,22 +252,29 @@ FWReadEnd(q, w) ==
 FWEval(q, w) ==
   LET f == fw[q][w].f i == fw[q][w].i IN
   /\ fw[q][w].pc = "eval"
-  /\ \/ /\ (ictx[q] \/ i > NB)                              \* pass over: the handle goes back
+  /\ \/ /\ (ictx[q] \/ i > NBf(q, f))                       \* pass over: the handle goes back
         /\ idle' = PutIdle(q, f) /\ closedH' = PutClosed(q, f)
         /\ fw' = [fw EXCEPT ![q][w] = [@ EXCEPT !.hh = FALSE, !.pc = "rel"]]
         /\ UNCHANGED << errs, promised, stats, faults >>
-     \/ /\ ~ictx[q] /\ i <= NB                              \* survives
+     \/ /\ ~ictx[q] /\ i <= NBf(q, f)                       \* survives
         /\ fw' = [fw EXCEPT ![q][w] = [@ EXCEPT !.surv = @ \cup {i}, !.i = i + 1]]
         /\ UNCHANGED << idle, closedH, errs, promised, stats, faults >>
-     \/ /\ ~ictx[q] /\ i <= NB                              \* pruned: skipped entry
+     \/ /\ ~ictx[q] /\ i <= NBf(q, f)                       \* pruned: skipped entry
         /\ stats' = StatAdd(q, f, {i})
         /\ fw' = [fw EXCEPT ![q][w].i = i + 1]
         /\ UNCHANGED << idle, closedH, errs, promised, faults >>
-     \/ /\ ~ictx[q] /\ i <= NB /\ faults < MaxFaults        \* the section does not parse: that block's problem alone
+     \/ /\ ~ictx[q] /\ i <= NBf(q, f) /\ faults < MaxFaults \* the section does not parse: that block's problem alone
         /\ faults' = faults + 1 /\ errs' = FailErrs(q) /\ promised' = FailPromised(q)
         /\ stats' = StatAdd(q, f, {i})
         /\ fw' = [fw EXCEPT ![q][w].i = i + 1]
         /\ UNCHANGED << idle, closedH >>
+     \/ /\ ~ictx[q] /\ 1 < i /\ i <= NBf(q, f) /\ faults < MaxFaults   \* a later chunk of the region cannot be read: the
+        /\ faults' = faults + 1                                        \* handle is discarded, the rest of the file unread
+        /\ errs' = FailErrs(q) /\ promised' = FailPromised(q)
+        /\ stats' = StatAdd(q, f, { j \in BlksOf(q, f) : j >= i })
+        /\ closedH' = [closedH EXCEPT ![q][f] = @ + 1]
+        /\ fw' = [fw EXCEPT ![q][w] = [@ EXCEPT !.hh = FALSE, !.pc = "rel"]]
+        /\ UNCHANGED idle
   /\ UNCHANGED << cctx, ictx, fs, iterOpen, fjobs, fjClosed, bjobs, bjClosed, bw, td, sem, refs, poolClosed, opened,
                   rowch, chClosed, done, finalized, err, cons, closer, once, decC, decErrs >>
 
@@ -351,17 +371,20 @@ BWScan(q, w) ==
   LET f == bw[q][w].f b == bw[q][w].b IN
   /\ bw[q][w].pc = "scan"
   /\ \/ /\ bw[q][w].left = 0 /\ stats' = StatAdd(q, f, {b})
-        /\ bw' = [bw EXCEPT ![q][w].pc = "done"] /\ UNCHANGED << rowch, sem >>
+        /\ bw' = [bw EXCEPT ![q][w].pc = "done"] /\ UNCHANGED << rowch, sem, errs, promised, faults >>
      \/ /\ bw[q][w].left > 0 /\ ictx[q]
-        /\ bw' = [bw EXCEPT ![q][w].left = 0] /\ UNCHANGED << rowch, sem, stats >>
+        /\ bw' = [bw EXCEPT ![q][w].left = 0] /\ UNCHANGED << rowch, sem, stats, errs, promised, faults >>
      \/ /\ bw[q][w].left > 0 /\ rowch[q] < RB /\ ~chClosed[q]
         /\ rowch' = [rowch EXCEPT ![q] = @ + 1]
-        /\ bw' = [bw EXCEPT ![q][w].left = @ - 1] /\ UNCHANGED << sem, stats >>
+        /\ bw' = [bw EXCEPT ![q][w].left = @ - 1] /\ UNCHANGED << sem, stats, errs, promised, faults >>
      \/ /\ bw[q][w].left > 0 /\ rowch[q] >= RB
         /\ sem' = sem - 1
-        /\ bw' = [bw EXCEPT ![q][w] = [@ EXCEPT !.held = FALSE, !.pc = "dslow"]] /\ UNCHANGED << rowch, stats >>
+        /\ bw' = [bw EXCEPT ![q][w] = [@ EXCEPT !.held = FALSE, !.pc = "dslow"]] /\ UNCHANGED << rowch, stats, errs, promised, faults >>
+     \/ /\ faults < MaxFaults /\ faults' = faults + 1          \* a row that does not frame or decode: the scan stops, the
+        /\ errs' = FailErrs(q) /\ promised' = FailPromised(q)   \* batch gathered so far is still delivered
+        /\ \E k \in 0..Min(1, bw[q][w].left) : bw' = [bw EXCEPT ![q][w].left = k] /\ UNCHANGED << rowch, sem, stats >>
   /\ UNCHANGED << cctx, ictx, fs, iterOpen, fjobs, fjClosed, fw, bjobs, bjClosed, td, refs, idle, poolClosed, opened, closedH,
-                  chClosed, done, errs, finalized, err, cons, closer, once, faults, decC, decErrs, promised >>
+                  chClosed, done, finalized, err, cons, closer, once, decC, decErrs >>
 
 BWDeliverSlow(q, w) ==
   LET f == bw[q][w].f b == bw[q][w].b IN
@@ -432,7 +455,7 @@ NextCall(q) ==
 NextWake(q) ==
   /\ cons[q].pc = "wait"
   /\ \/ /\ rowch[q] > 0 /\ rowch' = [rowch EXCEPT ![q] = @ - 1]                   \* a batch: returns true
-        /\ \E p \in 0..1 : cons' = [cons EXCEPT ![q] = [@ EXCEPT !.pc = "idle", !.pend = p]]
+        /\ \E p \in 0..MaxPend : cons' = [cons EXCEPT ![q] = [@ EXCEPT !.pc = "idle", !.pend = p]]
         /\ UNCHANGED << ictx, finalized, err, decC, decErrs >>
      \/ /\ rowch[q] = 0 /\ chClosed[q]                                           \* clean completion
         /\ Finish(q, Joined(q), cons[q].callC)
@@ -544,7 +567,7 @@ FalseIsSticky == [][\A q \in Qs : cons[q].iterDone => cons'[q].iterDone]_vars
 StatsAtMostOnce == \A q \in Qs : \A f \in Files : \A b \in Blks : stats[q][f][b] <= 1
 \* a query that ran to clean completion (never canceled, never closed) accounts for every block of every file it evaluated or none
 StatsWholeFiles == \A q \in Qs : (cons[q].iterDone /\ err[q] \in {"nil", "errs"} /\ ~cctx[q] /\ once[q] = "new") =>
-     \A f \in Files : (\E b \in Blks : stats[q][f][b] > 0) => \A b \in Blks : stats[q][f][b] = 1
+     \A f \in Files : (\E b \in BlksOf(q, f) : stats[q][f][b] > 0) => \A b \in BlksOf(q, f) : stats[q][f][b] = 1
 
 \* liveness
 NextEventuallyFalse == \A q \in Qs \ Stalled : <>(cons[q].iterDone)
